@@ -47,6 +47,13 @@ def shards(tier, seed):
         if impl == 'c':
             sh['variant'] = 'san'
         out.append(sh)
+    # bounded-exhaustive conflict merges: every triple of subsets of a 3-key universe (thorough: 4 keys) for one
+    # (family, kind) slice per shard, every comparison of every merge failed in turn
+    kinds = ['Bucket', 'Set', 'BTree', 'TreeSet']
+    for i, sh in enumerate(out):
+        fam = FAMS[(seed + i // 4) % len(FAMS)]
+        sh['enum_merge'] = {'cfg': {'fam': fam, 'kind': kinds[i % 4], 'impl': sh['impl'], 'sizes': None},
+                            'universe': 3 if tier == 'quick' else 4}
     return out
 
 
@@ -127,7 +134,16 @@ def run_case(case, ctx):
 
 
 def run_shard(shard, ctx):
-    ctx.hyp(_cases(shard), run_case, shard['n'], 'boom')
+    if not ctx.hyp(_cases(shard), run_case, shard['n'], 'boom'):
+        return
+    em = shard.get('enum_merge')
+    if em:
+        n = 0
+        for case in faults.merge_enum_cases(em['cfg'], em['universe']):
+            n += len(case['probes'])
+            if not ctx.run_case(case, run_case):
+                return
+        ctx.count('enumerated_merge_triples', n)
 
 
 def replay(case, ctx):
